@@ -48,9 +48,11 @@ PROP = "C14"
 RULE = (
     "generated forms (nested repeats with ${refs}; sparse hint/guidance/media translations; pulldata in several "
     "logic columns; or_other with languages; instance() in labels; external choices with/without header; search(); "
-    "duplicate id headers; entities; missing required headers; group<->repeat twins) converted under 8/64 "
+    "duplicate id headers; entities; 2-4 custom namespaces; one name in several groups with triggers and dynamic "
+    "defaults; shared default strings; missing required headers; group<->repeat twins) converted under 8/64 "
     "PYTHONHASHSEED values in fresh processes (a different batch order in each) and alone, by 4-8 concurrent threads "
-    "(switch interval 1us), under a forced per-token interleaving of the shared re.Scanner, 3x from one survey object, "
+    "(switch interval 1us), under a forced per-token interleaving of the shared re.Scanner, 6x from one survey object "
+    "through every public route (an exception on regeneration is a violation), "
     "twice from one dict object, with every lru_cache hit compared with the uncached function; all results compared "
     "byte for byte. distinct = canonical hash of the form; non-trivial = the form converts and uses >= 1 targeted feature"
 )
@@ -489,31 +491,49 @@ def phase_schedule(ctx, cases, seq):
 
 
 def phase_regen(ctx, case, ref):
+    """Regenerate the XML several times, through every public route, from the survey object of one
+    conversion.  An exception on regeneration is as much a violation as a different text."""
     d = copy.deepcopy(c14_impl.to_dict(case["form"]))
     obs, res = c14_impl.convert_dict(d)
     if res is None:
         return
     survey = res._survey
     ns0 = survey.namespaces
-    outs = []
-    w = []
-    for k in range(3):
-        outs.append(survey._to_ugly_xml())
-    w = []
-    outs.append(survey.to_xml(validate=False, pretty_print=False, warnings=w))
-    outs.append(survey.xml().toxml())
-    outs.append(survey._to_ugly_xml())
-    body = outs[4]
-    bad = [k for k, o in enumerate(outs) if k != 4 and o != obs[1]]
-    if body not in obs[1]:
-        bad.append(4)
-    if bad:
-        k = bad[0]
-        ctx.fail(Failure("regen", f"regeneration #{k + 1} from the same survey object differs from the first XForm: "
-                         + first_diff(obs[1], outs[k]), {"kind": "regen", "form": case["form"]}, extra={"which": bad}))
+    routes = [
+        ("_to_ugly_xml", lambda: survey._to_ugly_xml()),
+        ("to_xml(pretty_print=True)", lambda: survey.to_xml(validate=False, pretty_print=True)),
+        ("_to_ugly_xml", lambda: survey._to_ugly_xml()),
+        ("to_xml(pretty_print=False)", lambda: survey.to_xml(validate=False, pretty_print=False, warnings=[])),
+        ("xml().toxml()", lambda: survey.xml().toxml()),
+        ("_to_ugly_xml", lambda: survey._to_ugly_xml()),
+    ]
+    pretty = None
+    for k, (name, fn) in enumerate(routes):
+        try:
+            out = fn()
+        except Exception as e:  # noqa: BLE001
+            ctx.fail(Failure("regen", f"regeneration #{k + 1} ({name}) from the same survey object raised "
+                             f"{type(e).__name__}: {str(e)[:300]}", {"kind": "regen", "form": case["form"]},
+                             extra={"which": [k], "exception": type(e).__name__}))
+            break
+        if name.startswith("to_xml(pretty_print=True"):
+            # pretty text is compared with a fresh conversion's pretty text
+            if pretty is None:
+                import impl
+
+                pretty = impl.run(case["form"], pretty=True) if not case["form"].get("_no_external_header") else None
+            ok = pretty is None or not pretty.get("ok") or pretty["xform"] == out
+        elif name == "xml().toxml()":
+            ok = out in obs[1]
+        else:
+            ok = out == obs[1]
+        if not ok:
+            ctx.fail(Failure("regen", f"regeneration #{k + 1} ({name}) from the same survey object differs from the first XForm: "
+                             + first_diff(obs[1], out), {"kind": "regen", "form": case["form"]}, extra={"which": [k]}))
+            break
     if survey.namespaces != ns0:
         ctx.count("F36:namespaces_grew_without_effect")
-    ctx.count("regenerations", len(outs))
+    ctx.count("regenerations", len(routes))
 
 
 def phase_same_object(ctx, case):
@@ -654,34 +674,45 @@ def phase_model(ctx, n_lru):
         if [f"f_{c}" for c in got] != want:
             ctx.mismatch("Process.pulldataOrder vs order of pulldata instances in the XForm", {"present": present}, want, got)
         ctx.count("model:pulldata_cases")
+    # (e) namespace declarations -> nsmap (order of the xmlns attributes on h:html)
+    for _ in range(max(20, n_lru // 3)):
+        toks = []
+        for pfx, uri in rng.sample(c14_gen.NS_POOL, k=rng.randint(0, 4)):
+            q = rng.choice(['"', "'", ""])
+            toks.append(f"{pfx}={q}{uri}{q}")
+        toks += rng.sample(["x", "=y", "a=b=c", "jr=http://other", "odk=u", toks[0] if toks else "k=v"], k=rng.randint(0, 2))
+        rng.shuffle(toks)
+        sv = Survey(name="data", namespaces=" ".join(toks))
+        want = [[k, v] for k, v in sv.get_nsmap().items()]
+        got = drv.call("proc.nsmap", tokens=toks)
+        if got != want:
+            ctx.mismatch("Process.nsmapOf vs Survey.get_nsmap (order and values of the namespace map)", {"tokens": toks}, want, got)
+        ctx.count("model:nsmap_cases")
+    # (f) itemsets.csv header without external_choices_header
+    import csv
+    import io
+    import types
+
+    from pyxform.utils import external_choices_to_csv
+
+    for _ in range(max(20, n_lru // 3)):
+        keys = ["list_name", "name", "label", "state", "zeta", "alpha", "k9", "m"]
+        rows = [rng.sample(keys, k=rng.randint(1, 5)) for _ in range(rng.randint(1, 4))]
+        wb = types.SimpleNamespace(external_choices=[{k: "v" for k in r} for r in rows], external_choices_header=None)
+        text = external_choices_to_csv(workbook_dict=wb)
+        want = next(csv.reader(io.StringIO(text)))
+        got = drv.call("proc.itemsetsHeader", rows=rows)
+        if got != want:
+            ctx.mismatch("Process.itemsetsHeader (fallback) vs external_choices_to_csv header row", {"rows": rows}, want, got)
+        ctx.count("model:itemsets_header_cases")
 
 
 # --------------------------------------------------------------------------- explore / replay
 
 
 def matchers():
-    def n1(f):  # itemsets header fallback iterates a set
-        return (f.kind == "hashseed" and f.extra.get("diff") == ["itemsets"]
-                and bool(f.case["form"].get("_no_external_header")) and bool(f.case["form"].get("external_choices")))
-
-    def n2(f):  # which search()/non-search() clash is reported, and the order of the quoted names
-        return (f.kind == "hashseed" and f.extra.get("diff") == ["message"]
-                and all("uses 'search()'" in f.extra.get(k, "") and "referenced by at least one other question" in f.extra.get(k, "")
-                        for k in ("msg_a", "msg_b")))
-
-    def f23(f):
-        if f.kind != "same-object" or f.extra.get("diff") != ["warnings"]:
-            return False
-        a, b = f.extra["a"], f.extra["b"]
-        return ({"id_string", "form_id"} <= set(f.extra.get("header_keys", []))
-                and [w for w in a[2] if not w.startswith(DUP_ID_WARNING)] == b[2]
-                and any(w.startswith(DUP_ID_WARNING) for w in a[2]))
-
-    return {
-        "N1-itemsets-header-set-order": n1,
-        "N2-search-clash-message-set-order": n2,
-        "F23-input-dict-mutated-dup-id-warning": f23,
-    }
+    """No open finding of C14 on the repaired tree (N1, N2, F23 were fixed: 1948d14, f88f509, d7ea67c)."""
+    return {}
 
 
 def timed(ctx, name, t0):
@@ -700,7 +731,7 @@ def explore(ctx, factor, bs):
     old_tmp = tempfile.tempdir
     tempfile.tempdir = str(private_tmp)
     try:
-        n = ctx.pick(48, 240) * factor
+        n = ctx.pick(56, 240) * factor
         cases = c14_gen.batch(ctx.rng, n, big=not ctx.quick())
         ref = phase_seeds(ctx, wd, cases, ctx.pick(8, 64), ctx.pick(8, 32))
         t0 = timed(ctx, "seeds", t0)
@@ -712,7 +743,6 @@ def explore(ctx, factor, bs):
         # in-process sequential reference (this interpreter's own hash seed, after the batch above in
         # another order: one more history)
         seq = [c14_impl.observe(c["form"]) for c in cases]
-        n1 = matchers()["N1-itemsets-header-set-order"]
         for i, (a, b) in enumerate(zip(ref, seq)):
             d = diff_fields(a, b)
             if d:
@@ -748,6 +778,7 @@ def explore(ctx, factor, bs):
         ctx.notes["triaged_not_violations"] = {
             "F36": "get_nsmap appends the entities namespace to survey.namespaces on every xml() call; the XForm is unchanged "
                    "(theorem Process.nsmap_append_idem); counted as F36:namespaces_grew_without_effect",
+            "N1, N2, F23": "fixed in the series (1948d14, f88f509, d7ea67c); no matcher any more",
             "or_other language set, missing-header set": "iterated sets that cannot reach the output today "
                    "(theorems orOther/missing_order_irrelevant; the latter rests on the regenerated required-header table)",
         }
